@@ -1,6 +1,8 @@
 // sdpfrag: sdpfrag.SDPFrag.Unmarshal (the parser of WHIP PATCH bodies) on
 // structured and arbitrary byte strings, under recover(), compared with
-// Model/SdpFrag.v (C12: no client-chosen body makes the parser panic).
+// Model/SdpFrag.v (C12: no client-chosen body makes the parser panic); for
+// every body that parses, Marshal, UFragPwd and AllCandidates of the parsed
+// fragment (what the PATCH handler calls next) are compared as well.
 package main
 
 import (
@@ -74,6 +76,82 @@ func shortLines(data []byte) ([][]byte, bool) {
 	return out, true
 }
 
+// guarded runs fn under recover(); a panic is a C12 violation
+func guarded(t *tr.Trace, what string, data []byte, fn func() string) string {
+	obs := ""
+	func() {
+		defer func() {
+			if r := recover(); r != nil {
+				obs = "PANIC"
+				show := data
+				if len(show) > 200 {
+					show = show[:200]
+				}
+				t.Fail("C12", "sdpfrag_derived_no_panic", fmt.Sprintf("%s of the fragment parsed from %q panicked: %v", what, show, r))
+			}
+		}()
+		obs = fn()
+	}()
+	t.Checked("C12.sdpfrag_derived_no_panic")
+	return obs
+}
+
+// doDerived: the three functions the PATCH handler (and the ICE restart) run
+// on a parsed fragment.  Each op carries the body the fragment was parsed from.
+func doDerived(t *tr.Trace, f *sdpfrag.SDPFrag, data []byte) {
+	before := canon(f)
+	var out []byte
+	obs := guarded(t, "Marshal", data, func() string {
+		b, err := f.Marshal()
+		if err != nil {
+			return "err"
+		}
+		out = b
+		return tr.Hex(b)
+	})
+	t.Op(obs, "marshal", data)
+	if obs != "PANIC" && obs != "err" {
+		// monitor, independent of the model: what Marshal writes is made of
+		// CRLF-terminated lines, as many as the fragment has printed fields
+		// (no value of the body adds a line to the server's answer)
+		t.Checked("C12.sdpfrag_marshal_lines")
+		want := len(f.Candidates)
+		if f.UsernameFragment != "" {
+			want++
+		}
+		if f.Password != "" {
+			want++
+		}
+		for _, m := range f.MediaDescriptions {
+			want += 2 + len(m.Candidates)
+			if m.UsernameFragment != "" {
+				want++
+			}
+			if m.Password != "" {
+				want++
+			}
+		}
+		if n := bytes.Count(out, []byte("\n")); n != want || bytes.Count(out, []byte("\r\n")) < want ||
+			(len(out) > 0 && !bytes.HasSuffix(out, []byte("\r\n"))) {
+			t.Fail("C12", "sdpfrag_marshal_lines", fmt.Sprintf("Marshal wrote %d line feeds for %d fields", n, want))
+		}
+	}
+	obs = guarded(t, "UFragPwd", data, func() string {
+		u, p := f.UFragPwd()
+		return hx(u) + " " + hx(p)
+	})
+	t.Op(obs, "ufragpwd", data)
+	obs = guarded(t, "AllCandidates", data, func() string {
+		return cands(f.AllCandidates())
+	})
+	t.Op(obs, "allcands", data)
+	// the three functions only read the fragment
+	t.Checked("C12.sdpfrag_derived_readonly")
+	if canon(f) != before {
+		t.Fail("C12", "sdpfrag_derived_readonly", "Marshal/UFragPwd/AllCandidates changed the fragment")
+	}
+}
+
 func doUnmarshal(t *tr.Trace, data []byte) {
 	buf := make([]byte, len(data), len(data))
 	copy(buf, data)
@@ -105,6 +183,9 @@ func doUnmarshal(t *tr.Trace, data []byte) {
 	}
 	if obs == "PANIC" {
 		return
+	}
+	if obs != "err" {
+		doDerived(t, &f, data)
 	}
 	// independent restatement of two facts: the error is "a mid before the
 	// first m= line"; every candidate line is kept, in order
